@@ -214,7 +214,17 @@ ExpiredMacros(S0) == IF TP > 1000 THEN {} ELSE UNION {
            : P \in { Q \in PendingTimeout(S0, c) : Q.toT # 0 } }
       : c \in Chains }
 
-EdgeMacros(S0) == StaleMacros(S0) \cup RaceMacros(S0) \cup ExpiredMacros(S0) \cup
+\* Send whose timeout equals the consensus time of the client's latest state exactly while the sender's own clock is
+\* still before it (needs the destination's clock to run ahead): the own-block-time guard passes, the consensus
+\* guard must reject.  Also as a direct handler call: the late rejection must leave no state (sequence!) behind.
+SendConsMacros(S0) == IF ~V2 THEN {} ELSE UNION { UNION {
+      LET o == Cp(c)  h == S0.ch[o].h  lt == S0.ch[o].bt[h] IN
+      IF lt % 2 = 0 /\ lt > S0.now + 2 + Skew(c) /\ S0.ch[c].cur.ns <= MaxSeq
+      THEN { << Upd(c, h), [a |-> "SendV2", c |-> c, dt |-> 1, toT |-> lt \div 2, data |-> <<"ok">>, direct |-> d] >> }
+      ELSE {}
+    : d \in {TRUE, FALSE} } : c \in SENDERS }
+
+EdgeMacros(S0) == StaleMacros(S0) \cup RaceMacros(S0) \cup ExpiredMacros(S0) \cup SendConsMacros(S0) \cup
     UNION { UNION {
          { MacroRecvEdgeH(S0, c, P, k) : P \in { Q \in PendingRecv(S0, c) : Q.proto = "v1" /\ Q.toH # 0
                                                    /\ Q.toH - k - 2 - S0.ch[c].h \in 0..8 } }
